@@ -53,8 +53,8 @@ def dedup (l : List Prog) : List Prog := l.eraseDups
 def handle : Sexp → Option Sexp
   | .list [.atom "c01.spec", p] => do
       let P ← decParams p
-      let full := dedup (wtTerms P some (P.maxDepth + 1) 0 none P.request.returns)
-      let eff := dedup (wtTerms P (effParent P) (P.maxDepth + 1) 0 none P.request.returns)
+      let full := (wtTerms P some (P.maxDepth + 1) 0 none P.request.returns)
+      let eff := (wtTerms P (effParent P) (P.maxDepth + 1) 0 none P.request.returns)
       pure (.list [.list (full.map encProg), .list (eff.map encProg)])
   | .list [.atom "c01.model", p, fuel] => do
       let P ← decParams p
